@@ -120,7 +120,7 @@ pub fn known_class(idl: &Idl) -> Option<&'static str> {
 pub const FIXED_EXAMPLES: [(&str, &str, &[&str]); 6] = [
     ("K1", "interface org.example.k1\nmethod M(self: int) -> ()\n", &["panic"]),
     ("K3", "interface org.example.k3\nmethod Foo() -> ()\nmethod FOO() -> ()\n", &["E0428", "E0201", "E0046", "E0308"]),
-    ("K4", "interface org.example.k4\nmethod Type() -> ()\n", &["syntax"]),
+    ("K4", "interface org.example.k4\nmethod Type() -> ()\nmethod Do(a: int) -> (b: int)\nmethod Self() -> ()\nmethod Crate() -> ()\n", &["syntax"]),
     ("K5", "interface org.example.k5\ntype T (a_b: (x: int), a: (b: (y: int)))\nmethod M() -> ()\n", &["E0428", "E0119", "E0560", "E0609"]),
     ("K7", "interface org.example.k7\ntype Error (a: int)\nmethod M() -> ()\n", &["E0428", "E0119", "E0560", "E0609"]),
     ("K8", "interface org.example.k8\nmethod M() -> ()\nerror Struct ()\n", &["E0034"]),
